@@ -63,3 +63,56 @@ def run(P: Program, rep: Report):
                        "preamble / string texts taken from the source between the right delimiters (stripped except the "
                        "preamble), one field per `name = value` in order, duplicate-field entries flagged. " + sf.PRODUCT_RULE_TEXT)
     sf.report_product(rep, P, "C02.R2", ["content", "progress"], "parsed content of well-formed input", after_abort=False)
+
+    rep.rule("C02.R3", "free-text comments carry their source text up to surrounding whitespace: class-string evaluation of the "
+                       "free-text extractor (same rule as C03.R5), incl. one-character comments")
+    iss, n_ = sf.check_end_implicit_comment(P)
+    fe = P.func("splitter", f"Splitter.{sf.sm.M_END_IMPLICIT}")
+    rep.count("implicit_comment_class_strings", n_)
+    seen_ = set()
+    for i_ in iss:
+        k_ = i_["message"].split(":")[0][:60]
+        if k_ not in seen_:
+            seen_.add(k_)
+            rep.fail("C02.R3", "end_implicit_comment:" + k_, fe.loc, i_["message"])
+    if not iss:
+        rep.ok("C02.R3", "end_implicit_comment:class-strings", fe.loc, f"{n_} class strings agree")
+
+    rep.rule("C02.R4", "keys are exact: entries (strings) whose keys differ only in letter case or surrounding characters are distinct "
+                       "blocks, none is flagged as duplicate; parse_string hands the given text unchanged to the splitter")
+    from ..absint import AList, AObj, Raised, Unsupported, explore
+    from .common import call, call_func, driver_interp, new_obj
+
+    def exact(ctx):
+        it = driver_interp(P, ctx, "library")
+        mk = lambda c, *a, **k: new_obj(it, P, "model", c, *a, **k)
+        bl = [mk("Entry", entry_type="a", key=k_, fields=AList([]), start_line=0, raw="r") for k_ in ("Knuth84", "knuth84", "KNUTH84", "knuth84 ")] + \
+             [mk("String", key=k_, value="v", start_line=0, raw="r") for k_ in ("Jan", "jan")]
+        lib = new_obj(it, P, "library", "Library")
+        try:
+            call(it, lib, "add", AList(bl))
+            return [b.cls.name for b in it.iterate(it.get_attr(lib, "blocks"))], sorted(it.get_attr(lib, "entries_dict").items), sorted(it.get_attr(lib, "strings_dict").items)
+        except (Raised, Unsupported) as e_:
+            return repr(e_)
+    for ctx, v in explore(exact, 20):
+        ok = isinstance(v, tuple) and v[0] == ["Entry"] * 4 + ["String"] * 2 and v[1] == sorted(["Knuth84", "knuth84", "KNUTH84", "knuth84 "]) and v[2] == ["Jan", "jan"]
+        rep.check(ok, "C02.R4", "library:exact-keys", P.cls("library", "Library").loc, f"blocks with keys differing only in case: {v!r}; expected six live blocks")
+    from .c20 import Token, make_intrinsics, Hooks
+
+    def handover(ctx):
+        log = []
+        it = driver_interp(P, ctx, "entrypoint", make_intrinsics(P, log), Hooks(log))
+        try:
+            call_func(it, P.func("entrypoint", "parse_string"), Token("input-text", "str"), parse_stack=AList([]))
+        except (Raised, Unsupported) as e_:
+            return repr(e_)
+        sp = [e_ for e_ in log if e_[0] == "splitter"]
+        return [getattr(e_[1], "name", repr(e_[1])) for e_ in sp]
+    for ctx, v in explore(handover, 20):
+        rep.check(v == ["input-text"], "C02.R4", "parse_string:text-unchanged", P.func("entrypoint", "parse_string").loc,
+                  f"parse_string hands {v!r} to the splitter instead of the text it was given (stripped / rewritten text shifts offsets, lines and content)")
+
+    rep.rule("C02.R9", "no unsafe memoisation in the modules this property rests on: a function decorated with lru_cache / cache / "
+                      "cached_property neither takes nor returns a mutable object (else later calls see stale or shared results)")
+    from . import common as _common
+    _common.no_unsafe_memoisation(P, rep, "C02.R9", ['splitter', 'library', 'model'])
